@@ -163,8 +163,8 @@ func (d *Decoder) readDate(flag int32) (time.Time, error) {
 	return decodeDateValue(d.reader, flag)
 }
 
-func (d *Decoder) readStruct() (interface{}, error) {
-	tag, err := d.readTag()
+func (d *Decoder) readStruct(flag int32) (interface{}, error) {
+	tag, err := getTag(d.reader, flag)
 	if err != nil {
 		return nil, tagReadError(err)
 	}
